@@ -75,6 +75,7 @@ type Gen struct {
 	errRate    int            // per-mille chance of a deliberately failing operation at a failure site
 	NoFail     bool
 	pending    []Stmt
+	noDefer    bool            // no defer statements (loop-dominated programs: deferred calls pile up per iteration)
 	generating map[string]bool // named functions whose body is being generated (not callable yet)
 }
 
@@ -969,7 +970,7 @@ func (g *Gen) controlStmt() Stmt {
 }
 
 func (g *Gen) deferStmt() Stmt {
-	if g.level == 0 {
+	if g.level == 0 || g.noDefer {
 		return nil
 	}
 	g.feat("defer")
@@ -1120,7 +1121,9 @@ func (g *Gen) LoopProgram(size int, bound int64) *Program {
 	g.loops++
 	savedMix := g.Mix
 	g.Mix = MixControl
+	g.noDefer = true
 	f.Body = append(f.Body, g.blockOf(2+g.pick(4))...)
+	g.noDefer = false
 	g.Mix = savedMix
 	g.loops--
 	g.pop()
